@@ -498,6 +498,9 @@ func (e *Engine) mergeValues(c *Term, a, b Value) (Value, bool) {
 		if x == y {
 			return x, true
 		}
+		if x == nil || y == nil {
+			return nil, false
+		}
 		if x.Fn != y.Fn || x.Builtin != y.Builtin || x.HasRecv != y.HasRecv || len(x.Bindings) != len(y.Bindings) {
 			return nil, false
 		}
